@@ -65,6 +65,18 @@ Theorem c05_cut_resume_reported : forall c i s, fix_f19 (c_cfg c) = true -> c_st
 Proof. exact cut_resume_reported. Qed.
 Print Assumptions c05_cut_resume_reported.
 
+(* in EVERY state of EVERY configuration a stream is reported closed with an error only out of a
+   resume - the broker refused it, its exchange was cut, or its request could not be written on a dead
+   wire connection.  A stream that was opened and whose resume was neither refused nor cut is never
+   reported closed with an error. *)
+Theorem c05_closed_with_error_only_by_resume : forall c e i, In (OStreamClosed i true) (snd (step c e)) ->
+  exists s, find_s i (c_streams c) = Some s /\
+    ((exists r, e = EResumeResp i r /\ s_phase s = SResuming /\
+                (r = RespRefused \/ s_held s <> c_gen c \/ c_wclosed c = true)) \/
+     (e = ESup i /\ s_phase s = SWaitConn /\ c_status c = Connected /\ writable c = false)).
+Proof. exact closed_with_error_only_by_resume. Qed.
+Print Assumptions c05_closed_with_error_only_by_resume.
+
 (* single steps used above, for every configuration *)
 Theorem c05_supervisor_resumes : forall c i s, c_status c = Connected -> writable c = true ->
   find_s i (c_streams c) = Some s -> s_phase s = SWaitConn ->
